@@ -51,10 +51,18 @@ PARTS = {
   # for a long time: three statically declared Telemetry_Pipeline_Stage_Ingest_Frame[_Decoder|_Encoder] and 52 run-time
   # types of length 31/32/33/40/64/100 with the first difference at byte 30/31/32/33/63/64/99, the unmodified prefixes of
   # those lengths, and two 255-byte names differing in the last byte (148 type objects, 21904 pairs, 3.2e6 triples):
-  # antisymmetry, agreement with the order of the names, predicates == cmp, eq => equal hash.
+  # antisymmetry, agreement with the order of the names, predicates == cmp, eq => equal hash, hash == hash of the name; plus
+  # 36 cases in which the storage of a run-time type's name is reused (one buffer rewritten after / before the type is deleted,
+  # a String block handed out again by malloc) and the new type is hashed first.
   'C09': {
     'quick': [T('typecmp', 'base', 'mode=typecmp'), T('typecmp-asan', 'asan', 'mode=typecmp', 'count=0')],
     'thorough': [T('typecmp', 'base', 'mode=typecmp'), T('typecmp-asan', 'asan', 'mode=typecmp', 'count=0')],
+  },
+  # C10 ("equal values hash equally"): the same grid - eq of two type objects implies equal hashes, hash(type) is the hash of
+  # its name, also right after the storage of a run-time type's name was rewritten / recycled (the library keeps the pointer)
+  'C10': {
+    'quick': [T('typehash', 'base', 'mode=typecmp'), T('typehash-asan', 'asan', 'mode=typecmp', 'count=0')],
+    'thorough': [T('typehash', 'base', 'mode=typecmp'), T('typehash-asan', 'asan', 'mode=typecmp', 'count=0')],
   },
   'C12': {
     'quick': [
